@@ -102,7 +102,6 @@ def run(repo: Repo, rep: Report, tier: str) -> None:
     rd = repo.func("dul", "DULServiceProvider._read_pdu_data")
     fqd = "dul.DULServiceProvider._read_pdu_data"
     recvs = sorted([c for c in walk_no_nested(rd) if isinstance(c, ast.Call) and dotted(c.func) == "self.socket.recv"], key=lambda c: c.lineno)
-    rep.check(len(recvs) == 2 and norm(recvs[0].args[0]) == "6" and norm(recvs[1].args[0]) == "pdu_length", "header-body", fqd, f"recv({', '.join(norm(c.args[0]) for c in recvs)})", "first exactly the 6-byte header, then exactly pdu_length bytes", mod=dul, node=rd)
     fields = header_fields(rd)
     for name, want in (("pdu_type", (0, 1, "big")), ("pdu_length", (2, 4, "big"))):
         got = fields.get(name)
@@ -111,9 +110,58 @@ def run(repo: Repo, rep: Report, tier: str) -> None:
             continue
         ok_f = got[0][:2] == want[:2] and (want[1] == 1 or got[0][2] == want[2]) and got[1] == "bytestream"
         rep.check(ok_f, "header-body", fqd, f"{name} <- bytes [{got[0][0]}:{got[0][0] + got[0][1]}] {got[0][2]}-endian of {got[1]}", f"{name} is the {'big-endian 32-bit field at offset 2' if name == 'pdu_length' else 'first byte'} of the header (PS3.8 9.3.1): any other slice mis-frames the stream (e.g. a dropped top byte wraps lengths >= 16 MiB)", mod=dul, node=got[2])
-    # bytes are accumulated in arrival order into one buffer
-    acc = [norm(s) for s in walk_no_nested(rd) if isinstance(s, ast.stmt)]
-    rep.check("bytestream.extend(self.socket.recv(6))" in acc and "bytestream += self.socket.recv(pdu_length)" in acc and "bytestream = bytearray()" in acc, "header-body", fqd, "header and body appended to one fresh buffer", "the decoder must see header followed by body, nothing else", mod=dul, node=rd)
+    # what the decoder is handed: abstract content of every local buffer as a sequence of recv(n) chunks
+    bcfg = CFG(rd, body=body_nodoc(rd), local_exc_only=True)
+
+    def chunks(e, env):
+        e = strip_cast(e)
+        if isinstance(e, ast.Call) and norm(e.func) in ("bytearray", "bytes") and not e.args:
+            return ()
+        if isinstance(e, ast.Call) and norm(e.func) in ("bytearray", "bytes") and len(e.args) == 1:
+            return chunks(e.args[0], env)
+        if isinstance(e, ast.Constant) and e.value == b"":
+            return ()
+        if isinstance(e, ast.Call) and dotted(e.func) == "self.socket.recv" and len(e.args) == 1:
+            return (("recv", norm(e.args[0])),)
+        if isinstance(e, ast.Name):
+            return dict(env).get(e.id)
+        if isinstance(e, ast.BinOp) and isinstance(e.op, ast.Add):
+            l, r = chunks(e.left, env), chunks(e.right, env)
+            return None if l is None or r is None else l + r
+        return None
+
+    def btransfer(n, env):
+        if n.kind == "stmt":
+            a_ = n.ast
+            d = dict(env)
+            normal = {l for _, l in n.succ if l != "exc"}
+            new_env = None
+            if isinstance(a_, ast.Assign) and len(a_.targets) == 1 and isinstance(a_.targets[0], ast.Name):
+                v = chunks(a_.value, env)
+                if v is not None or a_.targets[0].id in d:
+                    d[a_.targets[0].id] = v
+                    new_env = d
+            elif isinstance(a_, ast.AugAssign) and isinstance(a_.op, ast.Add) and isinstance(a_.target, ast.Name) and a_.target.id in d:
+                l, r = d[a_.target.id], chunks(a_.value, env)
+                d[a_.target.id] = None if l is None or r is None else l + r
+                new_env = d
+            elif isinstance(a_, ast.Expr) and isinstance(a_.value, ast.Call) and isinstance(a_.value.func, ast.Attribute) and a_.value.func.attr == "extend" and isinstance(a_.value.func.value, ast.Name) and a_.value.func.value.id in d and len(a_.value.args) == 1:
+                nm = a_.value.func.value.id
+                l, r = d[nm], chunks(a_.value.args[0], env)
+                d[nm] = None if l is None or r is None else l + r
+                new_env = d
+            if new_env is not None:
+                ne = tuple(sorted(new_env.items(), key=lambda kv: kv[0]))
+                return [(ne, normal), (env, {"exc"})]
+        return [(env, None)]
+
+    bins, _bp = typestate(bcfg, (), btransfer)
+    bdec = [n for n in bcfg.nodes if n.kind == "stmt" and any(dotted(c.func) == "self._decode_pdu" for c in calls_at(n))]
+    rep.need(len(bdec) == 1, f"{fqd}: decode site not found")
+    dcall = next(c for c in calls_at(bdec[0]) if dotted(c.func) == "self._decode_pdu")
+    want_seq = (("recv", "6"), ("recv", "pdu_length"))
+    got_seqs = sorted({repr(chunks(dcall.args[0], env)) for env in bins.get(bdec[0].id, ())}) if dcall.args else []
+    rep.check(got_seqs == [repr(want_seq)], "header-body", fqd, f"decoder is handed {got_seqs}", "the decoder must be handed exactly recv(6) followed by recv(pdu_length) - first the 6-byte header, then exactly pdu_length bytes, in arrival order and nothing else", mod=dul, node=bdec[0].ast)
 
     # ---- short is closed -------------------------------------------------------------
     cfg = CFG(rd, body=body_nodoc(rd), local_exc_only=True)
